@@ -103,6 +103,7 @@ def run(ctx):
         rule="all key sizes x 1..6 blocks x random keys/IVs/data, both directions and modes; every data length 0..3 "
              "blocks; key sizes 0..40 and wrong IV sizes for rejection; KCV over key sizes 0..32; oracle = single-block "
              "OpenSSL ECB + hand chaining; non-trivial = distinct successful calls")
+    fw.inplace_history(res, rng, [c for c in cases if core.impl_call(c[0], c[1])[0] == "OK"][:300], check_impl)
     for fn, args in big:
         out = core.impl_call(fn, args)
         v = check_impl(fn, args, out)
